@@ -91,52 +91,52 @@ func (wf *Workflow[I, O]) Compile(ctx context.Context, opts ...GraphCompileOptio
 
 func (wf *Workflow[I, O]) AddChatModelNode(key string, chatModel model.BaseChatModel, opts ...GraphAddNodeOpt) *WorkflowNode {
 	_ = wf.g.AddChatModelNode(key, chatModel, opts...)
-	return wf.initNode(key)
+	return wf.initAddedNode(key)
 }
 
 func (wf *Workflow[I, O]) AddChatTemplateNode(key string, chatTemplate prompt.ChatTemplate, opts ...GraphAddNodeOpt) *WorkflowNode {
 	_ = wf.g.AddChatTemplateNode(key, chatTemplate, opts...)
-	return wf.initNode(key)
+	return wf.initAddedNode(key)
 }
 
 func (wf *Workflow[I, O]) AddToolsNode(key string, tools *ToolsNode, opts ...GraphAddNodeOpt) *WorkflowNode {
 	_ = wf.g.AddToolsNode(key, tools, opts...)
-	return wf.initNode(key)
+	return wf.initAddedNode(key)
 }
 
 func (wf *Workflow[I, O]) AddRetrieverNode(key string, retriever retriever.Retriever, opts ...GraphAddNodeOpt) *WorkflowNode {
 	_ = wf.g.AddRetrieverNode(key, retriever, opts...)
-	return wf.initNode(key)
+	return wf.initAddedNode(key)
 }
 
 func (wf *Workflow[I, O]) AddEmbeddingNode(key string, embedding embedding.Embedder, opts ...GraphAddNodeOpt) *WorkflowNode {
 	_ = wf.g.AddEmbeddingNode(key, embedding, opts...)
-	return wf.initNode(key)
+	return wf.initAddedNode(key)
 }
 
 func (wf *Workflow[I, O]) AddIndexerNode(key string, indexer indexer.Indexer, opts ...GraphAddNodeOpt) *WorkflowNode {
 	_ = wf.g.AddIndexerNode(key, indexer, opts...)
-	return wf.initNode(key)
+	return wf.initAddedNode(key)
 }
 
 func (wf *Workflow[I, O]) AddLoaderNode(key string, loader document.Loader, opts ...GraphAddNodeOpt) *WorkflowNode {
 	_ = wf.g.AddLoaderNode(key, loader, opts...)
-	return wf.initNode(key)
+	return wf.initAddedNode(key)
 }
 
 func (wf *Workflow[I, O]) AddDocumentTransformerNode(key string, transformer document.Transformer, opts ...GraphAddNodeOpt) *WorkflowNode {
 	_ = wf.g.AddDocumentTransformerNode(key, transformer, opts...)
-	return wf.initNode(key)
+	return wf.initAddedNode(key)
 }
 
 func (wf *Workflow[I, O]) AddGraphNode(key string, graph AnyGraph, opts ...GraphAddNodeOpt) *WorkflowNode {
 	_ = wf.g.AddGraphNode(key, graph, opts...)
-	return wf.initNode(key)
+	return wf.initAddedNode(key)
 }
 
 func (wf *Workflow[I, O]) AddLambdaNode(key string, lambda *Lambda, opts ...GraphAddNodeOpt) *WorkflowNode {
 	_ = wf.g.AddLambdaNode(key, lambda, opts...)
-	return wf.initNode(key)
+	return wf.initAddedNode(key)
 }
 
 // End returns the WorkflowNode representing END node.
@@ -149,7 +149,7 @@ func (wf *Workflow[I, O]) End() *WorkflowNode {
 
 func (wf *Workflow[I, O]) AddPassthroughNode(key string, opts ...GraphAddNodeOpt) *WorkflowNode {
 	_ = wf.g.AddPassthroughNode(key, opts...)
-	return wf.initNode(key)
+	return wf.initAddedNode(key)
 }
 
 // AddInput creates both data and execution dependencies between nodes.
@@ -739,6 +739,17 @@ func (wf *Workflow[I, O]) initNode(key string) *WorkflowNode {
 		wf.nodeOrder = append(wf.nodeOrder, key)
 	}
 	wf.workflowNodes[key] = n
+	return n
+}
+
+// initAddedNode is initNode for the Add*Node methods. END is exempt from initNode's refusal because End()
+// may create its handle lazily after a Compile; a node ADDED under the reserved key END after a successful
+// Compile is refused by the graph like any other (ErrGraphCompiled), which only the next Compile can report.
+func (wf *Workflow[I, O]) initAddedNode(key string) *WorkflowNode {
+	n := wf.initNode(key)
+	if wf.g.compiled && key == END {
+		n.addInputs = append(n.addInputs, func() error { return ErrGraphCompiled })
+	}
 	return n
 }
 
